@@ -130,7 +130,11 @@ class World(EventDispatcher):
 
         # Manage replaced components
         if component_type in self._entities.get(entity, {}):
+            pending_deletion = entity in self._dead_entities
             self.remove_component(entity, component_type)
+            # Replacing the last component does not delete the entity
+            if pending_deletion:
+                self._dead_entities.add(entity)
 
         if component_type not in self._components:
             self._components[component_type] = set()
@@ -294,6 +298,8 @@ class World(EventDispatcher):
                     del self._components[component_type]
 
             del self._entities[entity]
+            # The entity is gone, nothing is left to delete later
+            self._dead_entities.discard(entity)
 
         else:
             self._dead_entities.add(entity)
@@ -369,6 +375,8 @@ class World(EventDispatcher):
                 # Free dict entry for an entity if empty
                 if not self._entities[entity]:
                     del self._entities[entity]
+                    # The entity is gone, nothing is left to delete later
+                    self._dead_entities.discard(entity)
 
                 if removed is not None:
                     # No need to check if it is an handler, just check
